@@ -20,7 +20,8 @@ def run(tier, seed):
                           dict(base, MaxDepth=WALK), nsetup=ns, walk_len=ns + WALK,
                           nwalks=NWALKS[0 if quick else 1], seed=seed, clauses=CLAUSES,
                           extra_B=[{"Scenario": '"c08b"', "MaxDepth": 3 if quick else 4},
-                                   {"Scenario": '"c08c"', "MaxDepth": 3 if quick else 4}])
+                                   {"Scenario": '"c08c"', "MaxDepth": 3 if quick else 4},
+                                   {"Scenario": '"c08d"', "MaxDepth": 3 if quick else 5}])
 
 
 def replay(path):
